@@ -57,7 +57,7 @@ theorem Ends.getLast? {tr : List κ} {c : κ} (h : Ends tr c) : tr.getLast? = so
 
 /-- `d` is what json parsing gives for (the stripped text of) some match of an extraction pattern in `raw` -/
 def FromMatch (env : Env J S C) (raw : Text) (d : J) : Prop :=
-  ∃ i ∈ patternIds, ∃ ms, env.findall i raw = .ok ms ∧ ∃ m ∈ ms, env.loads (strip m) = .ok d
+  ∃ i ∈ env.patterns, ∃ ms, env.findall i raw = .ok ms ∧ ∃ m ∈ ms, env.loads (strip m) = .ok d
 
 /-- `d` is JSON actually present in `raw`: the whole stripped text, or an extraction match -/
 def Present (env : Env J S C) (raw : Text) (d : J) : Prop :=
@@ -76,7 +76,7 @@ def Derived (env : Env J S C) (raw : Text) : Strategy → J → Prop
   | .strict, d => env.loads (strip raw) = .ok d
   | .extraction, d => FromMatch env raw d
   | .lenient, d => ∃ e cs, Present env raw e ∧ env.isNone e = false ∧ env.coerce e = .ok (d, cs)
-  | .repair, d => ∃ t, repairPure env repairIds (strip raw) = .ok t ∧ env.loads t = .ok d
+  | .repair, d => ∃ t, repairPure env env.repairs (strip raw) = .ok t ∧ env.loads t = .ok d
 
 /-! ### STRICT -/
 
@@ -178,16 +178,16 @@ theorem scanPatterns_some (env : Env J S C) (raw : Text) : ∀ (is : List Nat) (
 theorem foldExtraction_eq (env : Env J S C) (raw : Text) :
     foldExtraction env raw = W.map X.erase (foldExtractionX env raw) := by
   unfold foldExtraction foldExtractionX
-  rcases hx : scanPatterns env raw patternIds with ⟨t, (_ | ⟨i, s⟩) | e⟩ <;> simp [X.erase]
+  rcases hx : scanPatterns env raw env.patterns with ⟨t, (_ | ⟨i, s⟩) | e⟩ <;> simp [X.erase]
 
 theorem foldExtractionX_valid (env : Env J S C) (raw : Text) (x : X S C)
     (h : (foldExtractionX env raw).res = .ok x) (hv : x.valid = true) :
-    ∃ i ∈ patternIds, ∃ d s, x = ⟨true, some s, none, 9 / 10, [.extractedVia i], some .extraction⟩ ∧
+    ∃ i ∈ env.patterns, ∃ d s, x = ⟨true, some s, none, 9 / 10, [.extractedVia i], some .extraction⟩ ∧
       env.validate d = .ok s ∧ FromMatch env raw d ∧
       Ends (foldExtractionX env raw).trace (.validate d (.ok s)) := by
   unfold foldExtractionX at h ⊢
-  have hsp := scanPatterns_some env raw patternIds
-  rcases hx : scanPatterns env raw patternIds with ⟨t, (_ | ⟨i, s⟩) | e⟩ <;> rw [hx] at h hsp <;> simp at h
+  have hsp := scanPatterns_some env raw env.patterns
+  rcases hx : scanPatterns env raw env.patterns with ⟨t, (_ | ⟨i, s⟩) | e⟩ <;> rw [hx] at h hsp <;> simp at h
   · subst h; simp at hv
   · subst h
     obtain ⟨hi, ms, hf, m, hm, d, hl, hval, hend⟩ := hsp i s rfl
@@ -198,7 +198,7 @@ theorem foldExtractionX_invalid (env : Env J S C) (raw : Text) (x : X S C)
     (h : (foldExtractionX env raw).res = .ok x) (hv : x.valid = false) :
     x.struct = none ∧ x.err ≠ none := by
   unfold foldExtractionX at h
-  rcases hx : scanPatterns env raw patternIds with ⟨t, (_ | ⟨i, s⟩) | e⟩ <;> rw [hx] at h <;> simp at h
+  rcases hx : scanPatterns env raw env.patterns with ⟨t, (_ | ⟨i, s⟩) | e⟩ <;> rw [hx] at h <;> simp at h
   · subst h; simp
   · subst h; simp at hv
 
@@ -261,8 +261,8 @@ theorem scanLoad_some (env : Env J S C) (raw : Text) : ∀ (is : List Nat) (d : 
 theorem extractJson_some (env : Env J S C) (raw : Text) (d : J)
     (h : (extractJson env raw).res = .ok (some d)) : Present env raw d := by
   unfold extractJson at h
-  have hsl := scanLoad_some env raw patternIds
-  rcases hx : scanLoad env raw patternIds with ⟨t, (_ | d') | e⟩ <;> rw [hx] at h hsl <;> simp at h
+  have hsl := scanLoad_some env raw env.patterns
+  rcases hx : scanLoad env raw env.patterns with ⟨t, (_ | d') | e⟩ <;> rw [hx] at h hsl <;> simp at h
   · rcases loadOne_spec env raw with ⟨d'', hl, heq⟩ | hn | ⟨e, he⟩
     · rw [heq] at h; simp at h; subst h; exact Or.inl hl
     · rw [h] at hn; simp at hn
@@ -354,8 +354,8 @@ theorem repairChainX_eq (env : Env J S C) : ∀ (is : List Nat) (t : Text) (name
 theorem foldRepair_eq (env : Env J S C) (raw : Text) :
     foldRepair env raw = W.map X.erase (foldRepairX env raw) := by
   unfold foldRepair foldRepairX cLoads cValidate
-  rw [repairChainX_eq env repairIds (strip raw) []]
-  rcases hx : repairChainX env repairIds (strip raw) [] with ⟨t, ⟨txt, ns⟩ | e⟩ <;> simp
+  rw [repairChainX_eq env env.repairs (strip raw) []]
+  rcases hx : repairChainX env env.repairs (strip raw) [] with ⟨t, ⟨txt, ns⟩ | e⟩ <;> simp
   cases hl : env.loads txt with
   | raise ex => cases ex <;> simp [X.erase, decodeOrValidationMsg, isDecodeOrValidation]
   | ok d =>
@@ -370,9 +370,9 @@ theorem foldRepairX_valid (env : Env J S C) (raw : Text) (x : X S C)
       env.validate d = .ok s ∧ Derived env raw .repair d ∧
       Ends (foldRepairX env raw).trace (.validate d (.ok s)) := by
   unfold foldRepairX cLoads cValidate at h ⊢
-  have hpure := repairChain_res env repairIds (strip raw)
-  rw [repairChainX_eq env repairIds (strip raw) []] at hpure
-  rcases hx : repairChainX env repairIds (strip raw) [] with ⟨t, ⟨txt, ns⟩ | e⟩ <;> rw [hx] at h hpure <;> simp at h
+  have hpure := repairChain_res env env.repairs (strip raw)
+  rw [repairChainX_eq env env.repairs (strip raw) []] at hpure
+  rcases hx : repairChainX env env.repairs (strip raw) [] with ⟨t, ⟨txt, ns⟩ | e⟩ <;> rw [hx] at h hpure <;> simp at h
   cases hl : env.loads txt with
   | raise ex => cases ex <;> simp [hl, decodeOrValidationMsg, isDecodeOrValidation] at h <;> (subst h; simp at hv)
   | ok d =>
@@ -391,7 +391,7 @@ theorem foldRepairX_invalid (env : Env J S C) (raw : Text) (x : X S C)
     (h : (foldRepairX env raw).res = .ok x) (hv : x.valid = false) :
     x.struct = none ∧ x.err ≠ none := by
   unfold foldRepairX cLoads cValidate at h
-  rcases hx : repairChainX env repairIds (strip raw) [] with ⟨t, ⟨txt, ns⟩ | e⟩ <;> rw [hx] at h <;> simp at h
+  rcases hx : repairChainX env env.repairs (strip raw) [] with ⟨t, ⟨txt, ns⟩ | e⟩ <;> rw [hx] at h <;> simp at h
   cases hl : env.loads txt with
   | raise ex => cases ex <;> simp [hl, decodeOrValidationMsg, isDecodeOrValidation] at h <;> (subst h; simp)
   | ok d =>
@@ -416,7 +416,7 @@ theorem attemptP_eq (env : Env J S C) (raw : Text) (s : Strategy) :
 def SuccessShape (s : Strategy) (x : X S C) (st : S) : Prop :=
   match s with
   | .strict => x = ⟨true, some st, none, 1, [], some .strict⟩
-  | .extraction => ∃ i ∈ patternIds, x = ⟨true, some st, none, 9 / 10, [.extractedVia i], some .extraction⟩
+  | .extraction => ∃ i : Nat, x = ⟨true, some st, none, 9 / 10, [.extractedVia i], some .extraction⟩
   | .lenient => ∃ cs : List C, x = ⟨true, some st, none, lenientConfidence cs.length, cs.map .coerced, some .lenient⟩
   | .repair => ∃ ns : List Nat, x = ⟨true, some st, none, repairConfidence ns.length, ns.map .repair, some .repair⟩
 
@@ -436,7 +436,7 @@ theorem attemptX_valid (env : Env J S C) (raw : Text) (s : Strategy) (x : X S C)
     · simp only [attemptX] at h
       rw [he] at h; simp at h
   · obtain ⟨i, hi, d, st, hx, hval, hd, hend⟩ := foldExtractionX_valid env raw x h hv
-    exact ⟨d, st, ⟨i, hi, hx⟩, hval, hd, hend⟩
+    exact ⟨d, st, ⟨i, hx⟩, hval, hd, hend⟩
   · obtain ⟨d, st, cs, hx, hval, hd, hend⟩ := foldLenientX_valid env raw x h hv
     exact ⟨d, st, ⟨cs, hx⟩, hval, hd, hend⟩
   · obtain ⟨d, st, ns, hx, hval, hd, hend⟩ := foldRepairX_valid env raw x h hv
@@ -787,7 +787,7 @@ theorem faithful_scanLoad (env : Env J S C) (raw : Text) : ∀ is : List Nat,
 
 theorem faithful_extractJson (env : Env J S C) (raw : Text) : (extractJson env raw).Faithful env := by
   unfold extractJson
-  apply W.faithful_bind _ _ _ (faithful_scanLoad env raw patternIds)
+  apply W.faithful_bind _ _ _ (faithful_scanLoad env raw env.patterns)
   intro r; cases r
   · exact faithful_loadOne env raw
   · apply W.faithful_pure
@@ -810,7 +810,7 @@ theorem faithful_attemptX (env : Env J S C) (raw : Text) (s : Strategy) : (attem
   cases s
   · unfold attemptX foldStrictX; repeat faithful_step
   · unfold attemptX foldExtractionX
-    apply W.faithful_bind _ _ _ (faithful_scanPatterns env raw patternIds)
+    apply W.faithful_bind _ _ _ (faithful_scanPatterns env raw env.patterns)
     intro r; rcases r with _ | ⟨i, s⟩ <;> apply W.faithful_pure
   · unfold attemptX foldLenientX
     apply W.faithful_bind _ _ _ (faithful_extractJson env raw)
@@ -820,7 +820,7 @@ theorem faithful_attemptX (env : Env J S C) (raw : Text) (s : Strategy) : (attem
       · apply W.faithful_pure
       · repeat faithful_step
   · unfold attemptX foldRepairX
-    apply W.faithful_bind _ _ _ (faithful_repairChainX env repairIds (strip raw) [])
+    apply W.faithful_bind _ _ _ (faithful_repairChainX env env.repairs (strip raw) [])
     intro rn
     repeat faithful_step
 
